@@ -5,27 +5,25 @@
    compares the token lists with padding ("" , 0) -- the same function in a form that can be reasoned
    about; the correspondence checks the equivalence on every run. *)
 From Coq Require Import List ZArith NArith Bool.
-From Scalibr Require Import Semantic.Cmp Semantic.LexPad Semantic.Bytes.
+From Scalibr Require Import Semantic.Cmp Semantic.LexPad Semantic.Bytes Semantic.Generated_Tables.
 Import ListNotations.
 Open Scope N_scope.
 
 (* type debianVersion struct { epoch *big.Int; upstream string; revision string } *)
 Record debian := { db_epoch : option Z; db_upstream : bytes; db_revision : bytes }.
 
-Fixpoint span {A} (f : A -> bool) (l : list A) : list A * list A :=
-  match l with
-  | [] => ([], [])
-  | x :: r => if f x then let (a, b) := span f r in (x :: a, b) else ([], l)
-  end.
-
 (* weighDebianChar applied to one element of strings.Split(prefix, "") (one UTF-8 sequence or one
    invalid byte): "~" -> 1, otherwise by the FIRST byte: letters keep their code, the rest +122 *)
+Definition deb_non_letter (z : Z) : bool :=
+  match gen_debian_letter_bounds with
+  | [b0; b1; b2; b3] => (z <? b0)%Z || ((b1 <? z)%Z && (z <? b2)%Z) || (b3 <? z)%Z
+  | _ => false
+  end.
 Definition deb_weight (chunk : bytes) : Z :=
-  if bytes_eqb chunk [126] then 1%Z
+  if bytes_eqb chunk [126] then gen_debian_tilde_weight
   else match chunk with
-       | [] => 2%Z
-       | c :: _ => let z := Z.of_N c in
-                   if (z <? 65)%Z || ((90 <? z)%Z && (z <? 97)%Z) || (122 <? z)%Z then (z + 122)%Z else z
+       | [] => gen_debian_empty_weight
+       | c :: _ => let z := Z.of_N c in if deb_non_letter z then (z + gen_debian_non_letter_offset)%Z else z
        end.
 
 Definition deb_weights (p : bytes) : list Z := map (fun r : bytes * N * bool => deb_weight (fst (fst r))) (runes p).
@@ -49,7 +47,7 @@ Definition deb_tokenise (s : bytes) : list deb_token := deb_tokens (length s) s.
 
 (* per token: weights padded with the weight of "" (2), then the numbers *)
 Definition deb_tok_cmp : deb_token -> deb_token -> comparison :=
-  lexprod (lexpad 2%Z Z.compare) Z.compare.
+  lexprod (lexpad gen_debian_empty_weight Z.compare) Z.compare.
 
 (* compareDebianVersions *)
 Definition deb_str_cmp (a b : bytes) : comparison :=
